@@ -50,6 +50,30 @@ def run_cases(ctx, E, N, replay_case=None):
         r = ctx.tlc("SliceCases", "SliceCases_run.cfg", workers=1, timeout=3000, heap_gb=6)
         if not os.path.exists(cases_file):
             raise Infra("TLC did not export the case table")
+        # seeded long sequences (lengths up to 80, values 0..9 with many duplicates): the post-conditions of SliceLib.tla judge them
+        # like every other recorded call (size-dependent behaviour, e.g. a fast path for short inputs, is out of reach of the
+        # exhaustive table)
+        extra = []
+        rng = ctx.rng
+        def U(op, s, **kw):
+            c = {"op": op, "s": s, "s2": [], "ss": [], "n": 0, "e": 0, "f": "", "acc": 0}
+            c.update(kw)
+            return c
+        for _ in range(60 if ctx.tier != "thorough" else 400):
+            n = rng.choice([9, 16, 17, 31, 32, 33, 34, 40, 64, 65, 80])
+            sq = [rng.randint(0, 9) for _ in range(n)]
+            if rng.random() < 0.3:
+                sq = [rng.randint(0, 40) for _ in range(n)]
+            k = rng.randint(0, n)
+            extra += [U("Distinct", sq), U("Sort", sq), U("SortBy", sq, f=rng.choice(["neg", "mod2", "id"])), U("Take", sq, n=k), U("Skip", sq, n=k),
+                      U("Filter", sq, f="isEven"), U("Map", sq, f="inc"), U("Fold", sq, f="add", acc=1), U("Fold", sq, f="sub", acc=0),
+                      U("Append", sq[:k], s2=sq[k:]), U("Concat", [], ss=[sq[:k], sq[k:], sq[:3]]), U("TryFind", sq, f="gt1"), U("Last", sq),
+                      U("Item", sq, n=max(0, k - 1)), U("PushLast", sq, e=7), U("PushHead", sq, e=7), U("Tail", sq), U("PopLast", sq),
+                      U("Zip", sq, s2=list(reversed(sq))), U("Collect", sq[:20], f="rep"), U("Mapi", sq, f="idxPlus"), U("Forall", sq, f="isPos"),
+                      U("Length", sq)]
+        with open(cases_file, "a") as fh:
+            for c in extra:
+                fh.write(json.dumps(c, separators=(",", ":")) + "\n")
     else:
         core.write_ndjson(cases_file, [replay_case])
     lines = []
